@@ -21,6 +21,9 @@ ASSUMPTIONS = [
     "Node.recv_loop (op recv_loop_eof) is exercised on the implementation only: the real loop body in a thread on a "
     "scripted peer that closes the connection; the required outcome (pings answered, loop ENDS) is computed by the "
     "harness from the reference framing, not by the Coq model",
+    "module state: sessions of set_magic_start_bytes / recv_msg / msg_ser calls sharing MAGIC_START_BYTES are compared with "
+    "Model/P2pSession.v (a refused call leaves the global unchanged); network names are ASCII-lowercased in the model",
+    "the receive path is run under the interpreter's default recursion limit (1000), not the worker's raised one",
     "socket model: recv(n) returns min(n, scheduled chunk, remaining) bytes and b'' at end of stream; blocking, "
     "timeouts and errors of real sockets are not modelled",
     "fragmentation theorems assume positive chunk sizes; termination (C17_recv_msg_terminates) holds for every schedule",
@@ -118,7 +121,8 @@ def _p2p():
 
 class ScriptedSocket:
     def __init__(self, stream, sched, bound):
-        self.data, self.pos, self.sched, self.i, self.calls, self.bound = stream, 0, list(sched), 0, 0, bound
+        # a socket hands out bytes objects, whatever buffer type the harness keeps the scripted stream in
+        self.data, self.pos, self.sched, self.i, self.calls, self.bound = bytes(stream), 0, list(sched), 0, 0, bound
 
     def recv(self, n, *flags):
         self.calls += 1
@@ -135,12 +139,52 @@ class ScriptedSocket:
         return out
 
 
+class _default_recursion:
+    """the receive path runs under the interpreter's DEFAULT recursion limit (the worker raises it for other reasons):
+    how many fragments a message may arrive in must not depend on the depth of the Python stack"""
+
+    def __enter__(self):
+        self.old = sys.getrecursionlimit()
+        sys.setrecursionlimit(1000)
+
+    def __exit__(self, *a):
+        sys.setrecursionlimit(self.old)
+
+
 def _with_magic(magic, f):
     m = _p2p()
     saved = m.MAGIC_START_BYTES
     m.MAGIC_START_BYTES = magic
     try:
-        return f(m)
+        with _default_recursion():
+            return f(m)
+    finally:
+        m.MAGIC_START_BYTES = saved
+
+
+def impl_magic_session(cur, steps):
+    """a sequence of calls sharing the module global MAGIC_START_BYTES (initially `cur`):
+    (0, name) / (1, non-string) set_magic_start_bytes; (2, fuel, stream, sched) recv_msg on a fresh scripted socket;
+    (3, command, payload) msg_ser with the global as start string.  A call that raises is 'refused'."""
+    m = _p2p()
+    saved = m.MAGIC_START_BYTES
+    m.MAGIC_START_BYTES = cur
+    outs = []
+    try:
+        with _default_recursion():
+            for st in steps:
+                try:
+                    if st[0] in (0, 1):
+                        outs.append(m.set_magic_start_bytes(st[1]))
+                    elif st[0] == 2:
+                        sk = ScriptedSocket(st[2], st[3], st[1])
+                        a, c, p = m.recv_msg(sk)
+                        outs.append((a, c, p, sk.data[sk.pos:]))
+                    else:
+                        outs.append(m.msg_ser(m.MAGIC_START_BYTES, st[1], st[2]))
+                except Exception:
+                    outs.append("refused")
+        return (outs, m.MAGIC_START_BYTES)
     finally:
         m.MAGIC_START_BYTES = saved
 
@@ -347,6 +391,7 @@ IMPL = {
     "recv_msg": impl_recv_msg,
     "recv_msgs": impl_recv_msgs,
     "recv_loop_eof": impl_recv_loop_eof,
+    "magic_session": impl_magic_session,
     "version_payload": impl_version_payload,
     "version_rt": impl_version_rt,
     "parse_version_payload": lambda b: _version_tuple(_p2p().parse_version_payload(b)),
@@ -486,6 +531,87 @@ def gen_cases(rng, tier):
         st = b"".join(ms) + rng.randbytes(rng.randrange(0, 3))
         out.append(case("frag-back-to-back-random", "recv_msgs", k, len(st) + 3, MAIN, st,
                         rand_sched(rng, len(st), rng.randrange(1, 30))))
+
+    # --- NUMBER of fragments one message arrives in (not only their sizes): a header/payload in 1 .. several thousand
+    #     recv chunks, around the interpreter's default recursion limit
+    many = [(990, 1), (1000, 1), (1010, 1), (1200, 1), (2500, 1), (5000, 2), (3000, 3)]
+    if T:
+        many += [(18000, 1), (20000, 3), (70000, 7), (70000, 64), (9000, 1)]
+    for n, ch in many:
+        p = rng.randbytes(n)
+        st = spec_ser(MAIN, rng.choice(SPEC_COMMANDS), p) + rng.randbytes(rng.randrange(0, 9))
+        recv("frag-many-chunks", st, [ch] * (len(st) // ch + 2), timeout=120)
+        recv("frag-many-chunks", st, [24] + [ch] * (n // ch + 2), timeout=120)
+    for nch in (10, 100, 500, 900, 1100, 2000):
+        n = 4000
+        st = spec_ser(MAIN, b"block", rng.randbytes(n))
+        recv("frag-many-chunks", st, rand_sched(rng, len(st), nch), timeout=120)
+
+    # --- the module global MAGIC_START_BYTES across sequences of calls: selections (valid, any case), REFUSED calls
+    #     (unknown / malformed names, non-strings, msg_ser that raises, messages that are rejected) interleaved with
+    #     normal use.  A refused call must leave no trace: what was selected before stays selected.
+    valid = ["mainnet", "testnet", "regtest", "MainNet", "REGTEST", "tEsTnEt", "Mainnet"]
+    invalid = ["", "main", "mainnet ", " mainnet", "bitcoin", "signet", "testnet3", "regtest\n", "mainnet\x00", "MAINNET2",
+               "\uff4dainnet", "ma\u0131nnet", "MA\u0130NNET", "None", "main net", "test", "reg-test", "mainnett"]
+    nonstr = [None, 5, 0, b"mainnet", ["mainnet"], True, b""]
+
+    def net_of(name):
+        return MAGIC[name.lower()]
+
+    def frame_for(mg, fragmented=True):
+        cmd = rng.choice(SPEC_COMMANDS)
+        st = spec_ser(mg, cmd, rng.randbytes(rng.randrange(0, 20))) + rng.randbytes(rng.randrange(0, 3))
+        return (2, len(st) + 3, st, rand_sched(rng, len(st), rng.randrange(1, 6)) if fragmented else [])
+
+    def bad_step():
+        r = rng.random()
+        if r < 0.5:
+            return (0, rng.choice(invalid))
+        if r < 0.75:
+            return (1, rng.choice(nonstr))
+        return (3, rng.choice([b"", b"nope", b"PING", b"ping\0"]), b"x")
+
+    def sess(cls, cur, steps):
+        out.append(case(cls, "magic_session", cur, steps))
+
+    for a in valid:
+        for b in invalid:
+            if T or rng.random() < 0.35:
+                sess("state-select-refused-use", rng.choice(list(MAGIC.values())), [(0, a), (0, b), frame_for(net_of(a))])
+        for b in nonstr:
+            sess("state-select-refusedtype-use", MAIN, [(0, a), (1, b), frame_for(net_of(a)), (3, b"ping", bytes(8))])
+    for b in invalid + nonstr:                       # refused first: the initial selection must survive
+        for cur in MAGIC.values():
+            if T or rng.random() < 0.5:
+                step = (0, b) if isinstance(b, str) else (1, b)
+                sess("state-refused-first", cur, [step, frame_for(cur), step, step, frame_for(cur, False)])
+    for a in valid:                                  # reselect: the old network's frames are now rejected, the new one's pass
+        for b in valid:
+            if T or rng.random() < 0.4:
+                sess("state-reselect", MAIN, [(0, a), frame_for(net_of(a)), (0, b), frame_for(net_of(a)), frame_for(net_of(b)),
+                                              (3, b"verack", b"")])
+    for cur in MAGIC.values():                       # refused msg_ser / rejected messages in between
+        other = [x for x in MAGIC.values() if x != cur][0]
+        bad_ck = bytearray(spec_ser(cur, b"ping", pay8)); bad_ck[21] ^= 1
+        sess("state-rejected-message-then-use", cur, [frame_for(other), frame_for(cur), (2, 40, bytes(bad_ck), [5, 40]),
+                                                       frame_for(cur), (2, 40, spec_ser(cur, b"ping", pay8)[:20], []),
+                                                       frame_for(cur), (3, b"nope", b""), (3, b"ping", pay8), frame_for(cur)])
+    for _ in range(600 if T else 120):
+        cur = rng.choice(list(MAGIC.values()))
+        state, steps = cur, []
+        for _ in range(rng.randrange(1, 9)):
+            r = rng.random()
+            if r < 0.25:
+                a = rng.choice(valid)
+                steps.append((0, a))
+                state = net_of(a)
+            elif r < 0.55:
+                steps.append(bad_step())
+            elif r < 0.9:
+                steps.append(frame_for(state if rng.random() < 0.8 else rng.choice(list(MAGIC.values()))))
+            else:
+                steps.append((3, rng.choice(SPEC_COMMANDS), rng.randbytes(rng.randrange(0, 9))))
+        sess("state-random-session", cur, steps)
 
     # --- call budget exactly sufficient / one short (Timeout must coincide with the model's FuelE)
     for sched, need in (([1] * 40, 32), ([24, 8], 2), ([5] * 10, 5 + 2), ([], 2)):
@@ -705,7 +831,8 @@ def _run_recv(fuel, magic, stream, sched):
     m.MAGIC_START_BYTES = magic
     try:
         try:
-            r = ("ok",) + tuple(m.recv_msg(s))
+            with _default_recursion():
+                r = ("ok",) + tuple(m.recv_msg(s))
         except ConnectionError:
             r = ("conn",)
         except ValueError:
@@ -765,6 +892,36 @@ def prop_oracle(c):
     op, a = c["op"], c["args"]
     if op == "recv_msg":
         return _oracle_recv_once(*a)[0]
+    if op == "magic_session":
+        cur, steps = a
+        got, final = impl_magic_session(cur, steps)
+        state, refused_before = bytes(cur), []
+        for i, (st, g) in enumerate(zip(steps, got)):
+            g = tuple(g) if isinstance(g, (list, tuple)) else g
+            if st[0] in (0, 1):
+                name = st[1]
+                ok = isinstance(name, str) and name.lower() in MAGIC
+                if ok:
+                    want, state = True, MAGIC[name.lower()]
+                else:
+                    want = "refused"
+                    refused_before.append("set_magic_start_bytes(%r)" % (name,))
+                what = "set_magic_start_bytes(%r)" % (name,)
+            elif st[0] == 2:
+                ref = ref_recv(state, bytes(st[2]))
+                want = tuple(ref[1:5]) if ref[0] == "ok" else "refused"
+                what = "recv_msg of a %s message" % ("correctly framed (selected network)" if ref[0] == "ok" else "bad")
+            else:
+                want = spec_ser(state, st[1], st[2]) if st[1] in SPEC_COMMANDS else "refused"
+                if want == "refused":
+                    refused_before.append("msg_ser(%r)" % (st[1],))
+                what = "msg_ser(MAGIC_START_BYTES, %r, ...)" % (st[1],)
+            if g != want:
+                return "call %d, %s: got %r, required %r (selected start string %s; refused calls so far: %s) - a refused " \
+                       "call must leave no trace" % (i, what, g, want, state.hex(), ", ".join(refused_before) or "none")
+        if final != state:
+            return "MAGIC_START_BYTES is %r after the session, the last successful selection was %s" % (final, state.hex())
+        return None
     if op == "recv_loop_eof":
         magic, frames, tail, sched = a
         frames = [tuple(f) for f in frames]
@@ -795,13 +952,14 @@ def prop_oracle(c):
                 ref = ref_recv(magic, stream[pos:])
                 s.calls = 0
                 try:
-                    r = ("ok",) + tuple(m.recv_msg(s))
+                    with _default_recursion():
+                        r = ("ok",) + tuple(m.recv_msg(s))
                 except ConnectionError:
                     r = ("conn",)
                 except ValueError:
                     r = ("value",)
                 except BaseException as e:
-                    r = ("timeout" if type(e).__name__ == "CaseTimeout" else "other",)
+                    r = ("timeout" if type(e).__name__ == "CaseTimeout" else "other:" + type(e).__name__,)
                 if all(x > 0 for x in sched):
                     if r[0] != ref[0] or (r[0] == "ok" and r[1:] != ref[1:4]):
                         return "message %d: got %r, the stream holds %r" % (i, r[:4], ref[:4])
@@ -920,6 +1078,17 @@ def shrink(c):
             c2 = dict(c)
             c2["args"] = [fuel, magic, stream, []]
             yield c2
+    elif c["op"] == "magic_session":
+        cur, steps = c["args"]
+        for i in range(len(steps)):
+            c2 = dict(c)
+            c2["args"] = [cur, steps[:i] + steps[i + 1:]]
+            yield c2
+        for i, st in enumerate(steps):
+            if st[0] == 2 and st[3]:
+                c2 = dict(c)
+                c2["args"] = [cur, steps[:i] + [(2, st[1], st[2], [])] + steps[i + 1:]]
+                yield c2
     elif c["op"] == "recv_loop_eof":
         magic, frames, tail, sched = c["args"]
         frames = [tuple(f) for f in frames]
